@@ -412,10 +412,17 @@ SingleMuts(fs) ==
     \cup {Mut(i, "cut", "", 0) : i \in 1..Len(fs)}
     \cup {Mut(i, "cut", "", p) : i \in {j \in 1..Len(fs) : MultiByte(fs[j])}, p \in {1, -1}}
     \cup UNION {{Mut(i, "tok", t, 0) : t \in {x \in TokensOf(fs, i) : ~TokSame(fs[i], x)}} : i \in 1..Len(fs)}
+    \* single bit flips: lowest bit of the first byte, highest bit of the last byte of a field
+    \cup {Mut(i, "tok", t, 0) : i \in {j \in 1..Len(fs) : fs[j].k = "f64" \/ Len(fs[j].b) > 0}, t \in {"flip0", "flip7"}}
 
 \* ---- the decoder run on a mutant -------------------------------------------
-\* state: pos = next field to read, err = sticky error, why = its cause, n = fields
-\* consumed, allocs = allocation requests made (role and count token), status
+\* state: pos = next field to read, err = sticky error, why = its cause, n = fields consumed,
+\* allocs = allocation requests made so far (role, count token, bytes per element), status,
+\* fmut = mutated float payloads read (they do not steer the parse)
+
+\* bytes one element of a counted field occupies once decoded (pointer + Loop struct, Point, CellID)
+ElemBytes(r) == CASE r = "nloops" -> 120 [] r = "nvertices" -> 24 [] r = "ncells" -> 8 [] OTHER -> 0
+
 DecInit == [pos |-> 1, err |-> FALSE, why |-> "", n |-> 0, allocs |-> <<>>, status |-> "RUN", fmut |-> 0]
 
 MutsAt(ms, i) == {j \in 1..Len(ms) : ms[j].at = i}
@@ -427,7 +434,7 @@ DecStep(fs, ms, d) ==
       LET f == fs[d.pos]
           here == MutsAt(ms, d.pos)
           ok == [d EXCEPT !.pos = d.pos + 1, !.n = d.n + 1,
-                          !.allocs = IF f.lim >= 0 THEN Append(d.allocs, [r |-> f.r, n |-> ToString(f.v)]) ELSE d.allocs]
+                          !.allocs = IF f.lim >= 0 THEN Append(d.allocs, [r |-> f.r, n |-> ToString(f.v), elem |-> ElemBytes(f.r)]) ELSE d.allocs]
       IN  IF here = {} THEN ok
           ELSE LET mu == ms[CHOOSE j \in here : \A j2 \in here : j <= j2]
                IN  IF mu.m = "cut"
@@ -447,7 +454,7 @@ DecStep(fs, ms, d) ==
                    ELSE \* an admissible but different value: the rest of the input is read in
                         \* other roles than it was written; the model makes no prediction
                         [d EXCEPT !.status = "DESYNC",
-                                  !.allocs = IF f.lim >= 0 THEN Append(d.allocs, [r |-> f.r, n |-> mu.tok]) ELSE d.allocs]
+                                  !.allocs = IF f.lim >= 0 THEN Append(d.allocs, [r |-> f.r, n |-> mu.tok, elem |-> ElemBytes(f.r)]) ELSE d.allocs]
 
 DecDone(d) == d.status # "RUN"
 
